@@ -22,13 +22,26 @@ Burst(cfg) ==
   \o <<"NICK " \o cfg.nick, "USER " \o cfg.ident \o " 12 * :" \o cfg.name>>
 
 Pong(tok) == "PONG :" \o tok
+\* "a PONG carrying the same token": the trailing form always carries it; the bare form does when the
+\* token is a single word
+CarriesToken(reply, tok) ==
+  \/ reply = <<Pong(tok)>>
+  \/ (tok # "" /\ ~Contains1(tok, " ") /\ Ch(tok, 1) # ":" /\ reply = <<"PONG " \o tok>>)
+
+\* growth beyond the listed properties: the built-in answers to CTCP VERSION and CTCP PING
+\* (a NOTICE to the sender carrying the configured version / the argument that was sent)
+CtcpAnswer(q, nick, version) ==
+  CASE q.verb = "VERSION" -> <<"NOTICE " \o nick \o " :" \o SOH \o "VERSION " \o version \o SOH>>
+    [] q.verb = "PING" /\ q.hasarg -> <<"NOTICE " \o nick \o " :" \o SOH \o "PING " \o q.arg \o SOH>>
+    [] OTHER -> <<>>
+GrowthOK(r) == \A i \in 1..Len(r.ctcps) : r.ctcps[i].reply = CtcpAnswer(r.ctcps[i], r.ctcps[i].from, r.version)
 
 \* a recorded session r = [cfg, dialed, burst, burst2, pongs : Seq([tok, reply]), pings]
 Conforms(r) ==
   /\ r.dialed = DialAddr(r.cfg.server, r.cfg.ssl)
   /\ r.burst = Burst(r.cfg)
   /\ r.burst2 = Burst(r.cfg)                                    \* again after a reconnect
-  /\ \A i \in 1..Len(r.pongs) : r.pongs[i].reply = <<Pong(r.pongs[i].tok)>>
+  /\ \A i \in 1..Len(r.pongs) : CarriesToken(r.pongs[i].reply, r.pongs[i].tok)
   /\ (r.cfg.pingfreq > 0) => r.pings >= 1
   /\ (r.cfg.pingfreq = 0) => r.pings = 0
 =============================================================================
